@@ -298,6 +298,12 @@ impl Compiler {
         hard: bool,
     ) -> Result<()> {
         let child = &info.children[0];
+        if lo > hi {
+            // `a{3,2}`: the delegated path rejects it as well (regex: RepetitionCountInvalid)
+            return Err(Error::CompileError(CompileError::FeatureNotYetSupported(
+                "Repeat with min greater than max".to_string(),
+            )));
+        }
         if lo == 0 && hi == 1 {
             // e?
             let pc = self.b.pc();
